@@ -228,3 +228,13 @@ Proof.
   - destruct H as [_ Hc]. unfold K, zlen in Hc. cbn [d_alloc]. lia.
   - destruct H.
 Qed.
+
+Corollary decode_ok_or_error bytes maxArr :
+  (exists d al, decode bytes maxArr = DOk d al) \/ (exists e al, decode bytes maxArr = DErr e al /\ e <> EFuel).
+Proof.
+  pose proof (decode_total bytes maxArr) as H.
+  destruct (decode bytes maxArr) as [d al | e al | p al].
+  - left. eauto.
+  - right. eauto.
+  - destruct H.
+Qed.
